@@ -65,39 +65,43 @@ func exact(b []byte) []byte {
 
 func TestV1Session(t *testing.T) {
 	ev.Check(t, "TestV1Session", ev.PickN(8000, 400000), func(t *rapid.T) {
-		v := ipmi.V1Session{
-			AuthType: ipmi.AuthenticationType(rapid.SampledFrom([]int{0, 1, 2, 4, 5}).Draw(t, "authType")),
-			Sequence: rapid.Uint32().Draw(t, "seq"), ID: rapid.Uint32().Draw(t, "id"),
-		}
-		if v.AuthType != 0 {
-			copy(v.AuthCode[:], rapid.SliceOfN(rapid.Byte(), 16, 16).Draw(t, "code"))
-		}
-		p := genPayload().Draw(t, "p")
-		w := ser(t, &v, gopacket.Payload(p))
+		// the decoder value is used for two generated values in a row: the second
+		// round trip starts from whatever the first left in it
 		var d ipmi.V1Session
-		if err := d.DecodeFromBytes(exact(w), gopacket.NilDecodeFeedback); err != nil {
-			t.Fatalf("decode of own serialisation failed: %v (% x)", err, w)
+		for rep := 0; rep < 2; rep++ {
+			v := ipmi.V1Session{
+				AuthType: ipmi.AuthenticationType(rapid.SampledFrom([]int{0, 1, 2, 4, 5}).Draw(t, "authType")),
+				Sequence: rapid.Uint32().Draw(t, "seq"), ID: rapid.Uint32().Draw(t, "id"),
+			}
+			if v.AuthType != 0 {
+				copy(v.AuthCode[:], rapid.SliceOfN(rapid.Byte(), 16, 16).Draw(t, "code"))
+			}
+			p := genPayload().Draw(t, "p")
+			w := ser(t, &v, gopacket.Payload(p))
+			if err := d.DecodeFromBytes(exact(w), gopacket.NilDecodeFeedback); err != nil {
+				t.Fatalf("decode of own serialisation failed: %v (% x)", err, w)
+			}
+			ev.Eval()
+			if d.AuthType != v.AuthType || d.Sequence != v.Sequence || d.ID != v.ID || d.AuthCode != v.AuthCode || int(d.Length) != len(p) {
+				t.Fatalf("fields differ: sent %+v, decoded %+v", fields1(&v), fields1(&d))
+			}
+			if !bytes.Equal(d.LayerPayload(), p) {
+				t.Fatalf("payload differs: % x vs % x", d.LayerPayload(), p)
+			}
+			if w2 := ser(t, &d, gopacket.Payload(d.LayerPayload())); !bytes.Equal(w, w2) {
+				t.Fatalf("re-serialisation differs:\n% x\n% x", w, w2)
+			}
+			// and against the reference encoding
+			rv := ref.V1{AuthType: byte(v.AuthType), Seq: v.Sequence, ID: v.ID, Code: v.AuthCode, Payload: p}
+			if !bytes.Equal(rv.Bytes(), w) {
+				t.Fatalf("differs from the reference encoding:\n% x\n% x", w, rv.Bytes())
+			}
+			ev.Label(fmt.Sprintf("v1:auth%d", v.AuthType))
+			if len(p) > 0 {
+				ev.NonTrivial(fmt.Sprintf("v1|%x", w))
+			}
+			ev.Sample(map[string]any{"layer": "V1Session", "authType": v.AuthType, "payloadLen": len(p), "wire": fmt.Sprintf("%x", w[:min(len(w), 40)])})
 		}
-		ev.Eval()
-		if d.AuthType != v.AuthType || d.Sequence != v.Sequence || d.ID != v.ID || d.AuthCode != v.AuthCode || int(d.Length) != len(p) {
-			t.Fatalf("fields differ: sent %+v, decoded %+v", fields1(&v), fields1(&d))
-		}
-		if !bytes.Equal(d.LayerPayload(), p) {
-			t.Fatalf("payload differs: % x vs % x", d.LayerPayload(), p)
-		}
-		if w2 := ser(t, &d, gopacket.Payload(d.LayerPayload())); !bytes.Equal(w, w2) {
-			t.Fatalf("re-serialisation differs:\n% x\n% x", w, w2)
-		}
-		// and against the reference encoding
-		rv := ref.V1{AuthType: byte(v.AuthType), Seq: v.Sequence, ID: v.ID, Code: v.AuthCode, Payload: p}
-		if !bytes.Equal(rv.Bytes(), w) {
-			t.Fatalf("differs from the reference encoding:\n% x\n% x", w, rv.Bytes())
-		}
-		ev.Label(fmt.Sprintf("v1:auth%d", v.AuthType))
-		if len(p) > 0 {
-			ev.NonTrivial(fmt.Sprintf("v1|%x", w))
-		}
-		ev.Sample(map[string]any{"layer": "V1Session", "authType": v.AuthType, "payloadLen": len(p), "wire": fmt.Sprintf("%x", w[:min(len(w), 40)])})
 	})
 }
 
@@ -127,56 +131,61 @@ func (t trunc) Size() int           { return t.n }
 
 func TestV2Session(t *testing.T) {
 	ev.Check(t, "TestV2Session", ev.PickN(10000, 600000), func(t *rapid.T) {
-		v := ipmi.V2Session{
-			Encrypted: rapid.Bool().Draw(t, "enc"), Authenticated: rapid.Bool().Draw(t, "auth"),
-			ID: rapid.Uint32().Draw(t, "id"), Sequence: rapid.Uint32().Draw(t, "seq"),
+		// the decoder value is used for two generated values in a row: the second
+		// round trip starts from whatever the first left in it
+		var d ipmi.V2Session
+		for rep := 0; rep < 2; rep++ {
+			v := ipmi.V2Session{
+				Encrypted: rapid.Bool().Draw(t, "enc"), Authenticated: rapid.Bool().Draw(t, "auth"),
+				ID: rapid.Uint32().Draw(t, "id"), Sequence: rapid.Uint32().Draw(t, "seq"),
+			}
+			v.PayloadType = ipmi.PayloadType(rapid.OneOf(rapid.SampledFrom([]int{0, 1, 2, 2, 2, 0x10, 0x11, 0x12, 0x13, 0x14, 0x15, 0x20, 0x27}), rapid.IntRange(0, 63)).Draw(t, "payloadType"))
+			if v.PayloadType == ipmi.PayloadTypeOEM {
+				v.Enterprise = iana.Enterprise(rapid.Uint32().Draw(t, "enterprise"))
+				v.PayloadID = rapid.Uint16().Draw(t, "payloadID")
+			}
+			alg := rapid.IntRange(0, 3).Draw(t, "integrity")
+			key := rapid.SliceOfN(rapid.Byte(), 0, 32).Draw(t, "key")
+			v.IntegrityAlgorithm = integ(alg, key)
+			p := genPayload().Draw(t, "p")
+			w := ser(t, &v, gopacket.Payload(p))
+			d.IntegrityAlgorithm = integ(alg, key)
+			if err := d.DecodeFromBytes(exact(w), gopacket.NilDecodeFeedback); err != nil {
+				t.Fatalf("decode of own serialisation failed: %v (% x)", err, w)
+			}
+			ev.Eval()
+			same := d.Encrypted == v.Encrypted && d.Authenticated == v.Authenticated && d.PayloadType == v.PayloadType && d.Enterprise == v.Enterprise &&
+				d.PayloadID == v.PayloadID && d.ID == v.ID && d.Sequence == v.Sequence && int(d.Length) == len(p)
+			if v.Authenticated {
+				same = same && d.Pad == v.Pad && bytes.Equal(d.Signature, v.Signature)
+			}
+			if !same {
+				t.Fatalf("fields differ: sent %s, decoded %s", fields2(&v), fields2(&d))
+			}
+			if !bytes.Equal(d.LayerPayload(), p) {
+				t.Fatalf("payload differs: % x vs % x", d.LayerPayload(), p)
+			}
+			if w2 := ser(t, &d, gopacket.Payload(d.LayerPayload())); !bytes.Equal(w, w2) {
+				t.Fatalf("re-serialisation differs:\n% x\n% x", w, w2)
+			}
+			// reference encoding (includes the pad rule and AuthCode range)
+			rp := &ref.Packet{Encrypted: v.Encrypted, Authenticated: v.Authenticated, PayloadType: uint8(v.PayloadType), OEMIANA: uint32(v.Enterprise), OEMPayloadID: v.PayloadID,
+				SessionID: v.ID, Seq: v.Sequence, Payload: p}
+			ri := map[int]uint8{0: 0, 1: ref.IntegSHA1_96, 2: ref.IntegMD5_128, 3: ref.IntegSHA256128}[alg]
+			want := ref.BuildPacket(rp, ri, key)[4:]
+			if !bytes.Equal(want, w) {
+				t.Fatalf("differs from the reference encoding:\n% x\n% x", w, want)
+			}
+			ev.Label(fmt.Sprintf("v2:integ%d:auth%v", alg, v.Authenticated))
+			ev.Label(fmt.Sprintf("v2:len%%4=%d", len(p)%4))
+			if v.PayloadType == ipmi.PayloadTypeOEM {
+				ev.Label("v2:oem")
+			}
+			if len(p) > 0 {
+				ev.NonTrivial(fmt.Sprintf("v2|%x", w))
+			}
+			ev.Sample(map[string]any{"layer": "V2Session", "fields": fields2(&v), "payloadLen": len(p)})
 		}
-		v.PayloadType = ipmi.PayloadType(rapid.OneOf(rapid.SampledFrom([]int{0, 1, 2, 2, 2, 0x10, 0x11, 0x12, 0x13, 0x14, 0x15, 0x20, 0x27}), rapid.IntRange(0, 63)).Draw(t, "payloadType"))
-		if v.PayloadType == ipmi.PayloadTypeOEM {
-			v.Enterprise = iana.Enterprise(rapid.Uint32().Draw(t, "enterprise"))
-			v.PayloadID = rapid.Uint16().Draw(t, "payloadID")
-		}
-		alg := rapid.IntRange(0, 3).Draw(t, "integrity")
-		key := rapid.SliceOfN(rapid.Byte(), 0, 32).Draw(t, "key")
-		v.IntegrityAlgorithm = integ(alg, key)
-		p := genPayload().Draw(t, "p")
-		w := ser(t, &v, gopacket.Payload(p))
-		d := ipmi.V2Session{IntegrityAlgorithm: integ(alg, key)}
-		if err := d.DecodeFromBytes(exact(w), gopacket.NilDecodeFeedback); err != nil {
-			t.Fatalf("decode of own serialisation failed: %v (% x)", err, w)
-		}
-		ev.Eval()
-		same := d.Encrypted == v.Encrypted && d.Authenticated == v.Authenticated && d.PayloadType == v.PayloadType && d.Enterprise == v.Enterprise &&
-			d.PayloadID == v.PayloadID && d.ID == v.ID && d.Sequence == v.Sequence && int(d.Length) == len(p)
-		if v.Authenticated {
-			same = same && d.Pad == v.Pad && bytes.Equal(d.Signature, v.Signature)
-		}
-		if !same {
-			t.Fatalf("fields differ: sent %s, decoded %s", fields2(&v), fields2(&d))
-		}
-		if !bytes.Equal(d.LayerPayload(), p) {
-			t.Fatalf("payload differs: % x vs % x", d.LayerPayload(), p)
-		}
-		if w2 := ser(t, &d, gopacket.Payload(d.LayerPayload())); !bytes.Equal(w, w2) {
-			t.Fatalf("re-serialisation differs:\n% x\n% x", w, w2)
-		}
-		// reference encoding (includes the pad rule and AuthCode range)
-		rp := &ref.Packet{Encrypted: v.Encrypted, Authenticated: v.Authenticated, PayloadType: uint8(v.PayloadType), OEMIANA: uint32(v.Enterprise), OEMPayloadID: v.PayloadID,
-			SessionID: v.ID, Seq: v.Sequence, Payload: p}
-		ri := map[int]uint8{0: 0, 1: ref.IntegSHA1_96, 2: ref.IntegMD5_128, 3: ref.IntegSHA256128}[alg]
-		want := ref.BuildPacket(rp, ri, key)[4:]
-		if !bytes.Equal(want, w) {
-			t.Fatalf("differs from the reference encoding:\n% x\n% x", w, want)
-		}
-		ev.Label(fmt.Sprintf("v2:integ%d:auth%v", alg, v.Authenticated))
-		ev.Label(fmt.Sprintf("v2:len%%4=%d", len(p)%4))
-		if v.PayloadType == ipmi.PayloadTypeOEM {
-			ev.Label("v2:oem")
-		}
-		if len(p) > 0 {
-			ev.NonTrivial(fmt.Sprintf("v2|%x", w))
-		}
-		ev.Sample(map[string]any{"layer": "V2Session", "fields": fields2(&v), "payloadLen": len(p)})
 	})
 }
 
@@ -186,63 +195,67 @@ func fields2(v *ipmi.V2Session) string {
 
 func TestMessage(t *testing.T) {
 	ev.Check(t, "TestMessage", ev.PickN(10000, 600000), func(t *rapid.T) {
-		m := ipmi.Message{
-			RemoteAddress: ipmi.Address(rapid.Byte().Draw(t, "remote")), RemoteLUN: ipmi.LUN(rapid.IntRange(0, 3).Draw(t, "rlun")),
-			LocalAddress: ipmi.Address(rapid.Byte().Draw(t, "local")), LocalLUN: ipmi.LUN(rapid.IntRange(0, 3).Draw(t, "llun")),
-			Sequence: uint8(rapid.IntRange(0, 63).Draw(t, "seq")),
-		}
-		m.Function = ipmi.NetworkFunction(rapid.OneOf(rapid.SampledFrom([]int{0x2c, 0x2d, 0x2e, 0x2f, 6, 7}), rapid.IntRange(0, 63)).Draw(t, "netfn"))
-		m.Command = ipmi.CommandNumber(rapid.Byte().Draw(t, "cmd"))
-		if !m.Function.IsRequest() {
-			m.CompletionCode = ipmi.CompletionCode(rapid.Byte().Draw(t, "cc"))
-		}
-		switch m.Function {
-		case ipmi.NetworkFunctionGroupReq, ipmi.NetworkFunctionGroupRsp:
-			m.Body = ipmi.BodyCode(rapid.Byte().Draw(t, "body"))
-		case ipmi.NetworkFunctionOEMReq, ipmi.NetworkFunctionOEMRsp:
-			m.Enterprise = iana.Enterprise(rapid.Uint32Range(0, 0xFFFFFF).Draw(t, "ent"))
-		}
-		p := genPayload().Draw(t, "p")
-		w := ser(t, &m, gopacket.Payload(p))
+		// the decoder value is used for two generated values in a row: the second
+		// round trip starts from whatever the first left in it
 		var d ipmi.Message
-		if err := d.DecodeFromBytes(exact(w), gopacket.NilDecodeFeedback); err != nil {
-			t.Fatalf("decode of own serialisation failed: %v (% x)", err, w)
+		for rep := 0; rep < 2; rep++ {
+			m := ipmi.Message{
+				RemoteAddress: ipmi.Address(rapid.Byte().Draw(t, "remote")), RemoteLUN: ipmi.LUN(rapid.IntRange(0, 3).Draw(t, "rlun")),
+				LocalAddress: ipmi.Address(rapid.Byte().Draw(t, "local")), LocalLUN: ipmi.LUN(rapid.IntRange(0, 3).Draw(t, "llun")),
+				Sequence: uint8(rapid.IntRange(0, 63).Draw(t, "seq")),
+			}
+			m.Function = ipmi.NetworkFunction(rapid.OneOf(rapid.SampledFrom([]int{0x2c, 0x2d, 0x2e, 0x2f, 6, 7}), rapid.IntRange(0, 63)).Draw(t, "netfn"))
+			m.Command = ipmi.CommandNumber(rapid.Byte().Draw(t, "cmd"))
+			if !m.Function.IsRequest() {
+				m.CompletionCode = ipmi.CompletionCode(rapid.Byte().Draw(t, "cc"))
+			}
+			switch m.Function {
+			case ipmi.NetworkFunctionGroupReq, ipmi.NetworkFunctionGroupRsp:
+				m.Body = ipmi.BodyCode(rapid.Byte().Draw(t, "body"))
+			case ipmi.NetworkFunctionOEMReq, ipmi.NetworkFunctionOEMRsp:
+				m.Enterprise = iana.Enterprise(rapid.Uint32Range(0, 0xFFFFFF).Draw(t, "ent"))
+			}
+			p := genPayload().Draw(t, "p")
+			w := ser(t, &m, gopacket.Payload(p))
+			if err := d.DecodeFromBytes(exact(w), gopacket.NilDecodeFeedback); err != nil {
+				t.Fatalf("decode of own serialisation failed: %v (% x)", err, w)
+			}
+			ev.Eval()
+			if d.Operation != m.Operation || d.RemoteAddress != m.RemoteAddress || d.RemoteLUN != m.RemoteLUN || d.LocalAddress != m.LocalAddress ||
+				d.LocalLUN != m.LocalLUN || d.Sequence != m.Sequence || d.CompletionCode != m.CompletionCode || d.Checksum1 != m.Checksum1 || d.Checksum2 != m.Checksum2 {
+				t.Fatalf("fields differ: sent %s, decoded %s", fieldsM(&m), fieldsM(&d))
+			}
+			if !bytes.Equal(d.LayerPayload(), p) {
+				t.Fatalf("payload differs: % x vs % x", d.LayerPayload(), p)
+			}
+			if w2 := ser(t, &d, gopacket.Payload(d.LayerPayload())); !bytes.Equal(w, w2) {
+				t.Fatalf("re-serialisation differs:\n% x\n% x", w, w2)
+			}
+			rm := &ref.Msg{RsAddr: byte(m.RemoteAddress), NetFn: byte(m.Function), RsLUN: byte(m.RemoteLUN), RqAddr: byte(m.LocalAddress), RqSeq: m.Sequence, RqLUN: byte(m.LocalLUN),
+				Cmd: byte(m.Command), CC: byte(m.CompletionCode)}
+			switch m.Function {
+			case ipmi.NetworkFunctionGroupReq, ipmi.NetworkFunctionGroupRsp:
+				rm.Data = append([]byte{byte(m.Body)}, p...)
+			case ipmi.NetworkFunctionOEMReq, ipmi.NetworkFunctionOEMRsp:
+				rm.Data = append([]byte{byte(m.Enterprise), byte(m.Enterprise >> 8), byte(m.Enterprise >> 16)}, p...)
+			default:
+				rm.Data = p
+			}
+			if !bytes.Equal(rm.Bytes(), w) {
+				t.Fatalf("differs from the reference encoding:\n% x\n% x", w, rm.Bytes())
+			}
+			cls := "std"
+			if m.Function>>1 == 0x16 {
+				cls = "group"
+			} else if m.Function>>1 == 0x17 {
+				cls = "oem"
+			}
+			ev.Label(fmt.Sprintf("msg:%s:req%v", cls, m.Function.IsRequest()))
+			if len(p) > 0 {
+				ev.NonTrivial(fmt.Sprintf("msg|%x", w))
+			}
+			ev.Sample(map[string]any{"layer": "Message", "fields": fieldsM(&m), "payloadLen": len(p)})
 		}
-		ev.Eval()
-		if d.Operation != m.Operation || d.RemoteAddress != m.RemoteAddress || d.RemoteLUN != m.RemoteLUN || d.LocalAddress != m.LocalAddress ||
-			d.LocalLUN != m.LocalLUN || d.Sequence != m.Sequence || d.CompletionCode != m.CompletionCode || d.Checksum1 != m.Checksum1 || d.Checksum2 != m.Checksum2 {
-			t.Fatalf("fields differ: sent %s, decoded %s", fieldsM(&m), fieldsM(&d))
-		}
-		if !bytes.Equal(d.LayerPayload(), p) {
-			t.Fatalf("payload differs: % x vs % x", d.LayerPayload(), p)
-		}
-		if w2 := ser(t, &d, gopacket.Payload(d.LayerPayload())); !bytes.Equal(w, w2) {
-			t.Fatalf("re-serialisation differs:\n% x\n% x", w, w2)
-		}
-		rm := &ref.Msg{RsAddr: byte(m.RemoteAddress), NetFn: byte(m.Function), RsLUN: byte(m.RemoteLUN), RqAddr: byte(m.LocalAddress), RqSeq: m.Sequence, RqLUN: byte(m.LocalLUN),
-			Cmd: byte(m.Command), CC: byte(m.CompletionCode)}
-		switch m.Function {
-		case ipmi.NetworkFunctionGroupReq, ipmi.NetworkFunctionGroupRsp:
-			rm.Data = append([]byte{byte(m.Body)}, p...)
-		case ipmi.NetworkFunctionOEMReq, ipmi.NetworkFunctionOEMRsp:
-			rm.Data = append([]byte{byte(m.Enterprise), byte(m.Enterprise >> 8), byte(m.Enterprise >> 16)}, p...)
-		default:
-			rm.Data = p
-		}
-		if !bytes.Equal(rm.Bytes(), w) {
-			t.Fatalf("differs from the reference encoding:\n% x\n% x", w, rm.Bytes())
-		}
-		cls := "std"
-		if m.Function>>1 == 0x16 {
-			cls = "group"
-		} else if m.Function>>1 == 0x17 {
-			cls = "oem"
-		}
-		ev.Label(fmt.Sprintf("msg:%s:req%v", cls, m.Function.IsRequest()))
-		if len(p) > 0 {
-			ev.NonTrivial(fmt.Sprintf("msg|%x", w))
-		}
-		ev.Sample(map[string]any{"layer": "Message", "fields": fieldsM(&m), "payloadLen": len(p)})
 	})
 }
 
@@ -302,43 +315,47 @@ func TestAES(t *testing.T) {
 
 func TestRAKP1(t *testing.T) {
 	ev.Check(t, "TestRAKP1", ev.PickN(6000, 300000), func(t *rapid.T) {
-		r := ipmi.RAKPMessage1{
-			Tag: rapid.Byte().Draw(t, "tag"), ManagedSystemSessionID: rapid.Uint32().Draw(t, "sid"),
-			PrivilegeLevelLookup: rapid.Bool().Draw(t, "lookup"), MaxPrivilegeLevel: ipmi.PrivilegeLevel(rapid.IntRange(0, 15).Draw(t, "priv")),
-		}
-		copy(r.RemoteConsoleRandom[:], rapid.SliceOfN(rapid.Byte(), 16, 16).Draw(t, "random"))
-		n := rapid.IntRange(0, 16).Draw(t, "ulen")
-		u := make([]byte, n)
-		for i := range u {
-			u[i] = byte(rapid.IntRange(1, 127).Draw(t, "uc"))
-		}
-		r.Username = string(u)
-		w := ser(t, &r)
+		// the decoder value is used for two generated values in a row: the second
+		// round trip starts from whatever the first left in it
 		var d ipmi.RAKPMessage1
-		if err := d.DecodeFromBytes(exact(w), gopacket.NilDecodeFeedback); err != nil {
-			t.Fatalf("decode of own serialisation failed: %v (% x)", err, w)
+		for rep := 0; rep < 2; rep++ {
+			r := ipmi.RAKPMessage1{
+				Tag: rapid.Byte().Draw(t, "tag"), ManagedSystemSessionID: rapid.Uint32().Draw(t, "sid"),
+				PrivilegeLevelLookup: rapid.Bool().Draw(t, "lookup"), MaxPrivilegeLevel: ipmi.PrivilegeLevel(rapid.IntRange(0, 15).Draw(t, "priv")),
+			}
+			copy(r.RemoteConsoleRandom[:], rapid.SliceOfN(rapid.Byte(), 16, 16).Draw(t, "random"))
+			n := rapid.IntRange(0, 16).Draw(t, "ulen")
+			u := make([]byte, n)
+			for i := range u {
+				u[i] = byte(rapid.IntRange(1, 127).Draw(t, "uc"))
+			}
+			r.Username = string(u)
+			w := ser(t, &r)
+			if err := d.DecodeFromBytes(exact(w), gopacket.NilDecodeFeedback); err != nil {
+				t.Fatalf("decode of own serialisation failed: %v (% x)", err, w)
+			}
+			ev.Eval()
+			if d.Tag != r.Tag || d.ManagedSystemSessionID != r.ManagedSystemSessionID || d.RemoteConsoleRandom != r.RemoteConsoleRandom ||
+				d.PrivilegeLevelLookup != r.PrivilegeLevelLookup || d.MaxPrivilegeLevel != r.MaxPrivilegeLevel || d.Username != r.Username {
+				t.Fatalf("fields differ: sent %+v decoded %+v", r, d)
+			}
+			if w2 := ser(t, &d); !bytes.Equal(w, w2) {
+				t.Fatalf("re-serialisation differs:\n% x\n% x", w, w2)
+			}
+			p1, err := ref.ParseRAKP1(w)
+			role := byte(r.MaxPrivilegeLevel)
+			if !r.PrivilegeLevelLookup {
+				role |= 0x10
+			}
+			if err != nil || p1.Tag != r.Tag || p1.SIDC != r.ManagedSystemSessionID || p1.RM != r.RemoteConsoleRandom || p1.Role != role || string(p1.User) != r.Username {
+				t.Fatalf("reference parse differs: %v %+v", err, p1)
+			}
+			ev.Label(fmt.Sprintf("rakp1:ulen%d", n))
+			if n > 0 {
+				ev.NonTrivial(fmt.Sprintf("rakp1|%x", w))
+			}
+			ev.Sample(map[string]any{"layer": "RAKPMessage1", "username": r.Username, "priv": r.MaxPrivilegeLevel, "lookup": r.PrivilegeLevelLookup})
 		}
-		ev.Eval()
-		if d.Tag != r.Tag || d.ManagedSystemSessionID != r.ManagedSystemSessionID || d.RemoteConsoleRandom != r.RemoteConsoleRandom ||
-			d.PrivilegeLevelLookup != r.PrivilegeLevelLookup || d.MaxPrivilegeLevel != r.MaxPrivilegeLevel || d.Username != r.Username {
-			t.Fatalf("fields differ: sent %+v decoded %+v", r, d)
-		}
-		if w2 := ser(t, &d); !bytes.Equal(w, w2) {
-			t.Fatalf("re-serialisation differs:\n% x\n% x", w, w2)
-		}
-		p1, err := ref.ParseRAKP1(w)
-		role := byte(r.MaxPrivilegeLevel)
-		if !r.PrivilegeLevelLookup {
-			role |= 0x10
-		}
-		if err != nil || p1.Tag != r.Tag || p1.SIDC != r.ManagedSystemSessionID || p1.RM != r.RemoteConsoleRandom || p1.Role != role || string(p1.User) != r.Username {
-			t.Fatalf("reference parse differs: %v %+v", err, p1)
-		}
-		ev.Label(fmt.Sprintf("rakp1:ulen%d", n))
-		if n > 0 {
-			ev.NonTrivial(fmt.Sprintf("rakp1|%x", w))
-		}
-		ev.Sample(map[string]any{"layer": "RAKPMessage1", "username": r.Username, "priv": r.MaxPrivilegeLevel, "lookup": r.PrivilegeLevelLookup})
 	})
 }
 
